@@ -33,6 +33,7 @@ type fnInfo struct {
 	mutates bool
 	via     bool // the receiver's struct has a --via field: the instance it points to is an explicit parameter
 	mutVia  bool // ... and the function modifies that instance (it is then the first component of the result)
+	mutParam *types.Var // a parameter of a devirtualised interface type (a pointer to a named slice) whose slice the function rebinds: its new value is the first component of the result
 	errCtor bool
 	params  []param // extra leading parameters (library parameters such as the page size, interface methods)
 	mark    int
@@ -49,6 +50,8 @@ type tr struct {
 	objects map[string]bool   // struct types whose pointers are object ids (--object S)
 	via     map[string]string // struct name -> field that points to the single instance of a by-value struct (--via S.f)
 	devirt  map[string]string // interface name -> struct whose pointers its values are (--devirt I=S)
+	rootPk  *pkgInfo          // the package named by --pkg
+	timeInt bool              // --timeint: time.Time is Z, Before/After/Equal are comparisons
 	usesPtr bool              // the output needs lib.GoLitePtr (maps, iter_objs)
 	packed  map[string]bool   // struct types whose values are opaque handles built / read by pure parameters (--packed S)
 	chans   bool              // channels are opaque handles (--chan)
@@ -71,7 +74,7 @@ func (t *tr) failf(n ast.Node, format string, a ...any) {
 // extraFiles: file name -> text of the files written next to --out (--split)
 var extraFiles = map[string]string{}
 
-func translate(repo, pkgdir string, roots, fuels, params, ifaces, shapes, require, objects, vias, devirts, packeds, splits, effs []string, chans, printShapes bool) (text string, err error) {
+func translate(repo, pkgdir string, roots, fuels, params, ifaces, shapes, require, objects, vias, devirts, packeds, splits, effs, stdpkgs []string, chans, timeInt, printShapes bool) (text string, err error) {
 	defer func() {
 		if r := recover(); r != nil {
 			if u, ok := r.(*unsupported); ok {
@@ -85,6 +88,21 @@ func translate(repo, pkgdir string, roots, fuels, params, ifaces, shapes, requir
 	if err != nil {
 		return "", err
 	}
+	if err := w.useStd(stdpkgs); err != nil {
+		return "", err
+	}
+	// the standard-library packages first: the repository packages that import
+	// them then see the same type-checked package
+	var stdOrder []string
+	for sp := range w.stdpkgs {
+		stdOrder = append(stdOrder, sp)
+	}
+	sort.Strings(stdOrder)
+	for _, sp := range stdOrder {
+		if _, err := w.load(sp); err != nil {
+			return "", err
+		}
+	}
 	path := w.mod
 	if pkgdir != "" && pkgdir != "." {
 		path = w.mod + "/" + filepath.ToSlash(pkgdir)
@@ -93,7 +111,11 @@ func translate(repo, pkgdir string, roots, fuels, params, ifaces, shapes, requir
 	if err != nil {
 		return "", err
 	}
-	t := &tr{w: w, fns: map[*types.Func]*fnInfo{}, structs: map[*types.TypeName]*structInfo{}, fuel: map[string]string{}, libpar: map[string]string{}, iface: map[string]string{}, opaque: map[string]bool{}, objects: map[string]bool{}, via: map[string]string{}, devirt: map[string]string{}}
+	t := &tr{rootPk: root, w: w, fns: map[*types.Func]*fnInfo{}, structs: map[*types.TypeName]*structInfo{}, fuel: map[string]string{}, libpar: map[string]string{}, iface: map[string]string{}, opaque: map[string]bool{}, objects: map[string]bool{}, via: map[string]string{}, devirt: map[string]string{}}
+	if timeInt {
+		t.timeInt = true
+		t.opaque["Time"] = true
+	}
 	t.packed = map[string]bool{}
 	for _, v := range packeds {
 		t.packed[strings.TrimSpace(v)] = true
@@ -188,7 +210,7 @@ func translate(repo, pkgdir string, roots, fuels, params, ifaces, shapes, requir
 		r = strings.TrimSpace(r)
 		var found *fnInfo
 		for _, fi := range t.fns {
-			if fi.pk != root {
+			if fi.pk != root && !fi.pk.std {
 				continue
 			}
 			if fnKey(fi) == r {
@@ -209,6 +231,9 @@ func translate(repo, pkgdir string, roots, fuels, params, ifaces, shapes, requir
 	header := func() string {
 		var hb strings.Builder
 		hb.WriteString("(* GENERATED by harness/cmd/go2coq from " + filepath.ToSlash(pkgdir) + " (roots: " + strings.Join(roots, ", ") + ").\n")
+		if len(stdOrder) > 0 {
+			hb.WriteString("   Standard-library packages translated from the toolchain's sources ($GOROOT/src, " + w.gover + "): " + strings.Join(stdOrder, ", ") + ".\n")
+		}
 		hb.WriteString("   Do not edit; regenerated from the working tree on every run.  Semantics of the\n   vocabulary: coq/lib/GoLite.v; subset and translation scheme: notes/TRANSLATOR.md. *)\n")
 		lib := "lib.GoLite"
 		if t.usesPtr {
@@ -336,6 +361,14 @@ func translate(repo, pkgdir string, roots, fuels, params, ifaces, shapes, requir
 }
 
 func fnKey(fi *fnInfo) string {
+	if fi.pk.std {
+		// functions of a --stdpkg package are named pkgname.Func (pkgname.Type.Method)
+		pre := fi.pk.pkg.Name() + "."
+		if r := fi.decl.Recv; r != nil && len(r.List) == 1 {
+			return pre + recvTypeName(r.List[0].Type) + "." + fi.decl.Name.Name
+		}
+		return pre + fi.decl.Name.Name
+	}
 	if r := fi.decl.Recv; r != nil && len(r.List) == 1 {
 		return recvTypeName(r.List[0].Type) + "." + fi.decl.Name.Name
 	}
@@ -433,6 +466,21 @@ func (t *tr) calleeOf(pk *pkgInfo, call *ast.CallExpr) *fnInfo {
 	f, ok := obj.(*types.Func)
 	if !ok {
 		return nil
+	}
+	// a method called on a value of an interface type declared outside the repository
+	// (container/heap.Interface, --stdpkg) whose values are pointers to one named slice
+	// type of the root package (--devirt I=S): the method of that type
+	if sel, ok := fun.(*ast.SelectorExpr); ok {
+		if tv, ok := pk.info.Types[sel.X]; ok {
+			if target := t.devirtSlice(tv.Type); target != nil {
+				for _, fi := range t.fns {
+					if fi.pk == t.rootPk && fi.decl.Recv != nil && len(fi.decl.Recv.List) == 1 && recvTypeName(fi.decl.Recv.List[0].Type) == target.Obj().Name() && fi.decl.Name.Name == sel.Sel.Name {
+						return fi
+					}
+				}
+				return nil
+			}
+		}
 	}
 	// a method of an interface whose values are pointers to one struct (--devirt I=S)
 	if sig, ok := f.Type().(*types.Signature); ok && sig.Recv() != nil {
@@ -610,6 +658,23 @@ func (t *tr) classify() {
 							}
 						}
 					}
+					// the callee rebinds the slice behind a devirtualised interface value held
+					// in a parameter of this function: the parameter's new value is returned
+					if c.mutates && c.recv != nil && t.devirtSlice(c.recv.Type()) == nil {
+						if sel, ok := ast.Unparen(x.Fun).(*ast.SelectorExpr); ok {
+							if tv, ok := info.Types[sel.X]; ok && t.devirtSlice(tv.Type) != nil {
+								t.noteMutParam(fi, sel.X, x)
+							}
+						}
+					}
+					if c.mutParam != nil {
+						csig := c.obj.Type().(*types.Signature)
+						for i := 0; i < csig.Params().Len() && i < len(x.Args); i++ {
+							if csig.Params().At(i) == c.mutParam {
+								t.noteMutParam(fi, x.Args[i], x)
+							}
+						}
+					}
 					if c.mutVia {
 						// the callee modifies the instance behind its --via field: here that is
 						// the via parameter of this method, or this method's receiver
@@ -692,6 +757,28 @@ func (t *tr) isViaSel(pk *pkgInfo, x *ast.SelectorExpr) bool {
 	return ok && f == x.Sel.Name
 }
 
+// noteMutParam: the expression e (a devirtualised interface value) is rebound by a
+// call; it must be a parameter of fi, which then returns its new value first
+func (t *tr) noteMutParam(fi *fnInfo, e ast.Expr, at ast.Node) {
+	id, ok := ast.Unparen(e).(*ast.Ident)
+	if !ok {
+		t.failf(at, "a devirtualised interface value that is modified must be a parameter of the function")
+	}
+	v, _ := fi.pk.info.Uses[id].(*types.Var)
+	sig := fi.obj.Type().(*types.Signature)
+	isParam := false
+	for i := 0; i < sig.Params().Len(); i++ {
+		isParam = isParam || sig.Params().At(i) == v
+	}
+	if v == nil || !isParam {
+		t.failf(at, "a devirtualised interface value that is modified must be a parameter of the function")
+	}
+	if fi.mutParam != nil && fi.mutParam != v {
+		t.failf(at, "two modified interface parameters")
+	}
+	fi.mutParam = v
+}
+
 func addParam(fi *fnInfo, p param) {
 	for _, q := range fi.params {
 		if q.name == p.name {
@@ -753,6 +840,43 @@ func (t *tr) packedParam(n *types.Named, field string) param {
 		return param{name + "_mk", ty + "Z"}
 	}
 	return param{name + "_" + field, "Z -> Z"}
+}
+
+// devirtSlice: ty is a named interface type declared outside the repository (a
+// --stdpkg package) that --devirt I=S maps to the named slice type S of the root
+// package; its values are *S (nil otherwise).  TRUSTED like every --devirt: the
+// callers of the translated functions pass values of that dynamic type.
+func (t *tr) devirtSlice(ty types.Type) *types.Named {
+	n, ok := types.Unalias(ty).(*types.Named)
+	if !ok || len(t.devirt) == 0 || t.rootPk == nil || t.rootPk.pkg == nil {
+		return nil
+	}
+	iface, isI := n.Underlying().(*types.Interface)
+	if !isI {
+		return nil
+	}
+	if pk := n.Obj().Pkg(); pk == nil || t.inRepo(pk.Path()) {
+		return nil
+	}
+	sn, ok := t.devirt[n.Origin().Obj().Name()]
+	if !ok {
+		return nil
+	}
+	tn, ok := t.rootPk.pkg.Scope().Lookup(sn).(*types.TypeName)
+	if !ok {
+		return nil
+	}
+	target, ok := types.Unalias(tn.Type()).(*types.Named)
+	if !ok {
+		return nil
+	}
+	if _, isS := target.Underlying().(*types.Slice); !isS {
+		return nil
+	}
+	if !types.Implements(types.NewPointer(target), iface) {
+		return nil
+	}
+	return target
 }
 
 // objectOf: ty is a pointer to a struct type declared as an object type
@@ -1143,6 +1267,9 @@ func (t *tr) coqType(at ast.Node, ty types.Type) string {
 	}
 	if ptrSliceOf(ty) {
 		return t.coqType(at, ty.(*types.Pointer).Elem())
+	}
+	if target := t.devirtSlice(ty); target != nil {
+		return t.coqType(at, target) // the slice value the pointer points to
 	}
 	if n := t.structOf(ty); n != nil {
 		return t.structInfoOf(at, n).name
